@@ -164,3 +164,16 @@ Example C13_example_overwrite :
   | CErr _ => False
   end.
 Proof. vm_compute. split; [eexists; split; reflexivity|reflexivity]. Qed.
+
+(** ** tie G (CLI glue), extracted from the AST of main.go on this run: every flag feeds the option of the same
+    name (keep / ignore-outside / reverse -> snap.Config, overwrite, page size), and the target file suffix is
+    "_" followed by the tile matrix id (the [s_ "_" ++ dec id] of C13_target_path_spec) *)
+From Coq Require Import String.
+From Texel.Gen Require Import CliGen.
+Theorem C13_source_tie :
+  gen_flag_map = [("KeepPointsAndLines", "Bool:keeppointsandlines"); ("IgnoreOutsideGrid", "Bool:ignoreoutsidegrid");
+                  ("ReverseWindingOrder", "Bool:reversewindingorder"); ("overwrite", "Bool:overwrite");
+                  ("pagesize", "Int:pagesize")]%string /\
+  gen_suffix_format = "_%v"%string /\ gen_validate_quadtree_first = true.
+Proof. repeat split; reflexivity. Qed.
+Print Assumptions C13_source_tie.
